@@ -19,8 +19,52 @@ PY = sys.executable
 DEFAULT_SEED = 20260921
 
 
+_SRC_HASH = None
+
+
+def src_hash():
+  """Hash of the mujoco_warp sources under /repo as they are on disk now (plus the seam code).
+
+  Warp keys its kernel cache by a hash of the kernel sources it can see; that hash misses some edits (e.g. functions only
+  passed to wp.tile_map), so the simulation caches are additionally keyed by the whole source tree: any edit of /repo gives a
+  fresh cache directory and every kernel is rebuilt from the current working tree."""
+  global _SRC_HASH
+  if _SRC_HASH is None:
+    import hashlib
+
+    h = hashlib.sha256()
+    repo = os.environ.get("VERIF_REPO", "/repo")
+    root = os.path.join(repo, "mujoco_warp")
+    files = []
+    for dp, dn, fn in os.walk(root):
+      dn.sort()
+      if "test_data" in dp:
+        continue
+      for f in sorted(fn):
+        if f.endswith(".py") and not f.endswith("_test.py"):
+          files.append(os.path.join(dp, f))
+    files.append(os.path.join(HERE, "sim", "seams.py"))
+    for f in files:
+      h.update(f.encode())
+      h.update(open(f, "rb").read())
+    _SRC_HASH = h.hexdigest()[:12]
+  return _SRC_HASH
+
+
+def prune_caches(keep=3):
+  base = cache_dir()
+  if not os.path.isdir(base):
+    return
+  for build in ("rel", "dbg"):
+    ds = [os.path.join(base, d) for d in os.listdir(base) if d.startswith(f"wp-{build}-")]
+    ds.sort(key=lambda d: os.path.getmtime(d), reverse=True)
+    for d in ds[keep:]:
+      shutil.rmtree(d, ignore_errors=True)
+
+
 def _env():
   e = dict(os.environ)
+  e["VERIF_SRC_HASH"] = src_hash()
   e["PYTHONHASHSEED"] = e.get("VERIF_HASHSEED", "0")
   e["PYTHONPATH"] = HERE + os.pathsep + e.get("PYTHONPATH", "")
   e["MJWARP_VERIF_SIM"] = "1"
@@ -175,6 +219,7 @@ def check(pid, tier, seed=None, replay=None, workers=None, budget_s=None):
   repdir = os.path.join(HERE, "replays", pid)
   os.makedirs(repdir, exist_ok=True)
   known = load_known()
+  prune_caches()
   print(f"[{pid}] tier={tier} seed={seed} workers={workers} build={build} budget_s={budget_s}", flush=True)
 
   if replay:
